@@ -28,7 +28,7 @@ OWNER = {
     "callback-args": "C04", "callback-before-state": "C04",
     "reply-missing": "C05", "reply-spurious": "C05", "reply-wrong": "C05",
     "emitted-malformed": "C05", "emitted-invalid": "C05", "misaddressed": "C05", "time-reply-wrong": "C05",
-    "id-out-of-range": "C06", "id-reused": "C06", "id-known": "C06", "id-response-missing": "C06",
+    "id-out-of-range": "C06", "id-reused": "C06", "id-request-raised": "C06", "id-known": "C06", "id-response-missing": "C06",
     "sent-while-asleep": "C07", "awake-delayed": "C07",
     "burst-missing": "C08", "burst-spurious": "C08", "burst-order": "C08", "burst-raised": "C08",
     "desired-undeliverable": "C08",
@@ -129,6 +129,9 @@ class NetRun:
         self.poisoned = set()  # nodes whose desired state holds a value the wire cannot carry
         self.stopping = False
         self.inject_at_save = None
+        self.state_diverged = False
+        self.inject_at_final_save = None
+        self.pending_fault = None
         self.last_change_t = -1.0
         self.last_change_kind = None
         self.last_save_t = -2.0
@@ -166,6 +169,9 @@ class NetRun:
 
     # ------------------------------------------------------------------ plumbing
     def _fs_trace(self, opname, path):
+        if self.pending_fault is not None and self.fs.armed and opname == self.pending_fault[0]:
+            self.fs.plan[self.fs.opno] = self.pending_fault[1]
+            self.pending_fault = None
         if opname == "rename" and ".tmp." in path:
             self.last_save_t = self.world.sim.now
             self.probe("saves_completed")
@@ -176,6 +182,9 @@ class NetRun:
         if phase == "begin":
             if role in ("timer", "executor") and not self.stopping:
                 self.tick_times.append(sim.now)
+                if self.pending_fault is not None and persistence.need_save:
+                    self.fs.arm({})
+                    self.fault_armed = True
                 if self.inject_at_save is not None and persistence.need_save:
                     data, self.inject_at_save = self.inject_at_save, None
                     self.world.device.inject(data)
@@ -184,6 +193,16 @@ class NetRun:
             self.saves_running += 1
         else:
             self.saves_running -= 1
+            if self.stopping and self.inject_at_final_save is not None and role not in ("timer",) and exc is None:
+                data, self.inject_at_final_save = self.inject_at_final_save, None
+                if self.world.device.current() is not None:
+                    self.world.device.inject(data)
+                    self.probe("late_line_delivered_during_stop")
+                    # a legal schedule: the stopping thread is descheduled for a moment right after its
+                    # save, long enough for reader and pump (or the loop) to handle the line
+                    self.world.sim.sleep(0.06)
+                else:
+                    self.probe("late_line_not_deliverable")
 
     def probe(self, name, n=1):
         self.probes[name] = self.probes.get(name, 0) + n
@@ -253,6 +272,9 @@ class NetRun:
             if res and res[0] == "raised":
                 fatal = True
                 flds = tables.parse_canonical(str(entry[0]))
+                if flds is not None and flds[2] == 3 and flds[4] == 3:
+                    # the allocator must answer an id request with a fresh id or with silence, not by failing
+                    self.add(vio("id-request-raised", {"line": entry[0], "exc": res[1], "msg": res[2]}, exc=res[1]))
                 if flds is not None and flds[2] == 3 and flds[4] in (22, 32):
                     # failing at wake-up instead of refusing the desired value at call time
                     self.add(vio("burst-raised", {"line": entry[0], "exc": res[1], "msg": res[2]}, exc=res[1]))
@@ -262,9 +284,14 @@ class NetRun:
             raise StopRun()  # the pump (or another library thread) is gone: nothing after this is meaningful
 
     # -------------------------------------------------------------------- start
+    def _build(self):
+        if self.cfg.get("no_callback"):
+            return self.world.build(event_callback=None)
+        return self.world.build()
+
     def start(self):
         world = self.world
-        world.build()
+        self._build()
         world.start(persistence=bool(self.persist))
         self.out_lines()
         self.new_callbacks()
@@ -560,6 +587,8 @@ class NetRun:
         self.add(vio(cls, detail, model_kind=exp.kind))
 
     def _check_callbacks(self, exp, fields, cbs):
+        if self.cfg.get("no_callback"):
+            return  # the gateway was built without an event callback
         entries = [c[0] for c in cbs]
         want = tuple(fields)
         if exp.cb == "mustnot":
@@ -577,13 +606,15 @@ class NetRun:
             if tuple(got) != want:
                 self.add(vio("callback-args", {"want": list(want), "got": list(got)}, model_kind=exp.kind))
             snap = cbs[0][1]
-            if exp.cb == "must" and snap is not None and snap != self.model.projection():
+            if exp.cb == "must" and snap is not None and not self.state_diverged and snap != self.model.projection():
                 self.add(vio("callback-before-state", {"fields": list(want), "diff": _diff(snap, self.model.projection())}, model_kind=exp.kind))
 
     def _check_state(self, text):
+        if self.state_diverged:
+            return
         real = W.projection(self.world.gateway.sensors)
         want = self.model.projection()
-        shash = hashlib.sha256(repr(sorted(want.items())).encode()).hexdigest()[:12]
+        shash = hashlib.sha256(repr(sorted(want.items(), key=repr)).encode()).hexdigest()[:12]
         self.states.add(shash)
         if shash != self.prev_state_hash:
             self.prev_state_hash = shash
@@ -591,8 +622,9 @@ class NetRun:
             self.last_change_kind = self.cur_kind
         if real != want:
             self.add(vio("state-mismatch", {"after": text, "diff": _diff(real, want)}))
-            # resynchronise is not possible; stop comparing to avoid cascades
-            raise StopRun()
+            # the tree is no longer compared after this (the first divergence is the finding); the
+            # run goes on so that the other oracles - liveness above all - still see what follows
+            self.state_diverged = True
 
     def _check_id(self, exp, lines, out):
         hdr = f"{exp.id_header[0]};{exp.id_header[1]};3;0;4;"
@@ -836,9 +868,12 @@ class NetRun:
             self.probe("ota_sessions_scheduled", len(done))
         self.trace.append(("fw", nids, ftype_i, fver_i, None if image is None else len(image), done))
 
-    def op_restart(self):
-        """Clean stop, then a fresh gateway object on the same disk."""
+    def op_restart(self, late_line=None):
+        """Clean stop, then a fresh gateway object on the same disk.  ``late_line``: a line the
+        network delivers at the very moment the final save of stop() has been written (it is
+        only ever seen by a gateway that still listens at that point)."""
         world = self.world
+        self.inject_at_final_save = None if late_line is None or self.broker is not None else late_line.encode() + b"\n"
         before = W.projection(world.gateway.sensors)
         trans_before = W.transient(world.gateway.sensors)
         if any(tr["queue"] or tr["reboot"] or any(any(x is not None for x in v.values()) for v in tr["desired"].values())
@@ -862,12 +897,21 @@ class NetRun:
         world.settle()
         self.stopping = False
         world.advance(0.1)
+        stopped_gateway = world.gateway
+        if late_line is not None:
+            # what the gateway held when it stopped (a line it still handled during stop() counts)
+            before = W.projection(stopped_gateway.sensors)
+            for text, _ok in self.out_lines():
+                parts = text.split(";")
+                if len(parts) == 6 and parts[2] == "3" and parts[4] == "4" and tables.canonical_int(parts[5]):
+                    self.ids_all.append(int(parts[5]))
+                    self.probe("id_handed_out_during_stop")
         self.out_lines()
         self.health()
         self.lifetime += 1
         if self.broker is not None:
             del self.broker.subs[:]  # a new client session: the old subscriptions are gone
-        world.build()
+        self._build()
         try:
             world.start(persistence=bool(self.persist))
         except kernel.SimAbort:
@@ -904,6 +948,76 @@ class NetRun:
         _ = old
         self.trace.append(("restart", self.lifetime))
 
+    def op_race(self, spec):
+        """A controller call made from a second thread WHILE a line is being processed (pre-emptive
+        schedules decide the interleaving).  Replies written during the race are consumed without
+        an order check (either interleaving is legal); the model is brought to the state both
+        interleavings agree on, and the steps that follow are checked as usual."""
+        world = self.world
+        gateway = world.gateway
+        sim = world.sim
+        call = spec["call"]
+        done = kernel.SimEvent()
+        outcome = {}
+
+        def controller():
+            try:
+                if call[0] == "set":
+                    gateway.set_child_value(call[1], call[2], call[3], call[4])
+                else:
+                    gateway.tasks.ota.make_update(call[1], call[2], call[3], bytes.fromhex(call[4]) if call[4] else None)
+                outcome["ok"] = True
+            except Exception as exc:  # pylint: disable=broad-except
+                outcome["exc"] = exc
+            finally:
+                done.set()
+
+        self.probe("races")
+        text = spec["line"]
+        tier, fields = classify(text, self.version)
+        go = kernel.SimEvent()
+
+        def waiting_controller():
+            # becomes runnable at the instant the pump starts on the racing line, so both are
+            # runnable together and the pre-emptive policy decides the interleaving
+            go.wait(2.0)
+            controller()
+
+        def hook(data):
+            if data.rstrip("\r") == text:
+                go.set()
+
+        if W.is_async(self.flavour):
+            world.device.inject(text.encode("utf-8", "surrogateescape") + b"\n")
+            world.on_loop(controller)
+        else:
+            world.logic_hook = hook
+            sim.spawn(waiting_controller, role="controller")
+            world.device.inject(text.encode("utf-8", "surrogateescape") + b"\n")
+            done.wait(5.0)
+            world.logic_hook = None
+        world.settle()
+        out = self.out_lines()
+        self.new_callbacks()
+        self.health()
+        self._check_emitted(out, None)
+        # ---- model: both interleavings end in the same state -------------------------------------
+        if fields is not None:
+            exp = self.model.on_line(fields, (0, 2 ** 40))
+            if getattr(exp, "ota_config", None) and exp.ota_config.get("optional"):
+                self.model.ota.resolve_optional_config(fields[0], any(o[0].split(";")[2:5:2] == ["4", "1"] for o in out))
+        if call[0] == "set" and "ok" in outcome:
+            action, _exp = self.model.set_child_value_plan(call[1], call[2], int(call[3]), call[4])
+            if action == "store":
+                self.model.store_desired(call[1], call[2], int(call[3]), str(call[4]))
+        elif call[0] == "fw" and "ok" in outcome:
+            image = bytes.fromhex(call[4]) if call[4] else None
+            donel = self.model.ota.schedule(self.model.nodes, call[1], int(call[2]), int(call[3]), image)
+            for nid in donel:
+                self.model.nodes[nid]["reboot"] = True
+        self.trace.append(("race", text[:40], call[0], "ok" if "ok" in outcome else type(outcome.get("exc")).__name__))
+        self._check_state("race")
+
     # ------------------------------------------------------------------- driver
     def run_ops(self, ops):
         world = self.world
@@ -921,6 +1035,8 @@ class NetRun:
                 world.advance(max(0.0, wait) + 0.5)
                 self.fs.readonly.discard("/work")
                 self._after_idle()
+            elif kind == "race":
+                self.op_race(op[1])
             elif kind == "line_at_save":
                 self._deliver_and_observe(op[1], "\n", at_save=True)
             elif kind == "raw":
@@ -947,7 +1063,17 @@ class NetRun:
                 world.sim.wall_skew += op[1]
                 self.faults["clock_jump"] = self.faults.get("clock_jump", 0) + 1
             elif kind == "restart":
-                self.op_restart()
+                self.op_restart(op[1].get("late_line") if len(op) > 1 and isinstance(op[1], dict) else None)
+            elif kind == "fault_tick":
+                # one transient I/O fault at the first operation of the given kind in the next scheduled save
+                self.pending_fault = (op[1], op[2])
+                wait = (self.tick_times[-1] + 10.0 - world.sim.now) if self.tick_times else 10.1
+                world.advance(max(0.0, wait) + 0.5)
+                self.fs.disarm()
+                if self.pending_fault is None:
+                    self.faults["save_" + op[2] + "_at_" + op[1]] = self.faults.get("save_" + op[2] + "_at_" + op[1], 0) + 1
+                self.pending_fault = None
+                self._after_idle()
             elif kind == "stop_at_tick":
                 # stop() issued at the very instant a scheduled save begins: whether the two
                 # overlap is up to the scheduler (pre-emptive policies)
@@ -976,12 +1102,25 @@ class NetRun:
 
     def execute(self):
         res = {"violations": self.violations, "probes": self.probes, "faults": self.faults}
+        return self._execute(res)
+
+    def _guarded_ops(self, ops):
+        try:
+            self.run_ops(ops)
+        except (StopRun, kernel.SimAbort, kernel.Deadlock):
+            raise
+        except Exception:
+            if self.state_diverged:
+                raise StopRun()  # the model cannot follow an implementation state it has no notion of
+            raise
+
+    def _execute(self, res):
         world = self.world
         incomplete = None
         try:
             try:
                 self.start()
-                self.run_ops(self.case["ops"])
+                self._guarded_ops(self.case["ops"])
             except StopRun:
                 pass
             except kernel.SimAbort as exc:
